@@ -94,9 +94,9 @@ def run_config(chk, tier, config):
         return
     r = ret.payloads[0][0]
     errv = ret.payloads[1][0]
-    # loops of test_timer itself, or of a library combinator it drives the probes with (try_for_each, try_fold, ...); loops with
-    # an exact closed form are plain arithmetic
-    recs = [x for x in ev.loops_log if not x.closed and (x.body == key or crate.bodies.get(x.body, {}).get("krate") == "core")]
+    # loops of test_timer itself (loops with an exact closed form are plain arithmetic; loops of library combinators belong to the
+    # helpers that use them)
+    recs = [x for x in ev.loops_log if not x.closed and x.body == key]
     warm = None
     if len(recs) == 2:
         # the same 400 probes as a warm-up loop of 100 followed by a measuring loop of 300
